@@ -590,3 +590,12 @@ if _os.path.isdir(_SEED):
         _pid = _d['property']
         ENTRIES['S-' + _lab] = {'kind': 'mutant', 'what': 'seeded: ' + (_d.get('summary') or '')[:110], 'checks': [_pid],
                                 'patch': 'seeded/%s/patch.diff' % _lab, 'edits': [], 'expect': {_pid: []}}
+
+# ---------------------------------------------------------------- behaviour-preserving refactorings written by independent sub-agents
+_EQ = _os.path.join(_os.path.dirname(_os.path.abspath(__file__)), 'equiv')
+_ALL = ['C%02d' % _i for _i in range(1, 20)]
+if _os.path.isdir(_EQ):
+    for _f in sorted(_os.listdir(_EQ)):
+        if _f.endswith('.diff'):
+            ENTRIES['Q-' + _f[:-5]] = {'kind': 'equivalent', 'what': 'agent refactoring ' + _f, 'checks': _ALL,
+                                       'patch': 'selftest/equiv/' + _f, 'edits': []}
